@@ -6,6 +6,7 @@ import (
 	"encoding/json"
 	"fmt"
 	"strings"
+	"sync"
 	"time"
 
 	"github.com/beevik/etree"
@@ -147,78 +148,53 @@ func c16JudgePage(sp *saml2.SAMLServiceProvider, c c16Case, out, docBytes []byte
 		return keys, detail, "DIFFERS"
 	}
 	isResp := b == "BuildLogoutResponseBodyPostFromDocument"
-	field, formID, submitValue, method := "SAMLRequest", "SAMLRequestForm", "Submit", "POST"
+	field := "SAMLRequest"
 	endpoint := sp.IdentityProviderSSOURL
 	if strings.HasPrefix(b, "BuildLogout") {
 		endpoint = sp.IdentityProviderSLOURL
 	}
 	if isResp {
-		field, formID, submitValue, method = "SAMLResponse", "SAMLResponseForm", "Continue", "post"
+		field = "SAMLResponse"
 	}
-	// expected token sequence
-	type want struct {
-		kind, name string
-		attrs      map[string]string
-		text       string
+	// what the statement speaks of: one form posting to the endpoint, holding the message field
+	// and the RelayState field iff a relay state was given, submitted by a script
+	page := c16ReadPage(toks, field)
+	var message string
+	switch {
+	case page.forms != 1 || page.nested:
+		bad("page-structure-differs", "%d form elements (nested=%v), expected a single form", page.forms, page.nested)
+		return keys, detail, "DIFFERS"
+	case page.action != endpoint:
+		bad("attribute-value-differs/form@action", "<form action=%q> expected %q", page.action, endpoint)
 	}
-	var seq []want
-	if isResp {
-		seq = append(seq, want{kind: "start", name: "html"})
+	if !strings.EqualFold(page.method, "post") {
+		bad("attribute-value-differs/form@method", "<form method=%q> expected POST", page.method)
 	}
-	seq = append(seq, want{kind: "start", name: "form", attrs: map[string]string{"method": method, "action": endpoint, "id": formID}})
-	seq = append(seq, want{kind: "start", name: "input", attrs: map[string]string{"type": "hidden", "name": field, "value": "\x00message"}})
-	if relay != "" {
-		seq = append(seq, want{kind: "start", name: "input", attrs: map[string]string{"type": "hidden", "name": "RelayState", "value": relay}})
-	}
-	seq = append(seq, want{kind: "start", name: "input", attrs: map[string]string{"id": "SAMLSubmitButton", "type": "submit", "value": submitValue}})
-	seq = append(seq, want{kind: "end", name: "form"})
-	if isResp {
-		seq = append(seq, want{kind: "start", name: "script"}, want{kind: "script-text", text: c16ScriptResp1}, want{kind: "end", name: "script"},
-			want{kind: "start", name: "script"}, want{kind: "script-text", text: c16ScriptResp2}, want{kind: "end", name: "script"}, want{kind: "end", name: "html"})
-	} else {
-		seq = append(seq, want{kind: "start", name: "script"}, want{kind: "script-text", text: c16ScriptReq}, want{kind: "end", name: "script"})
-	}
-	if len(toks) != len(seq) {
-		names := []string{}
-		for _, t := range toks {
-			names = append(names, t.Kind+":"+t.Name)
-		}
-		bad("page-structure-differs", "tokens %v (expected %d)", names, len(seq))
+	if len(page.message) != 1 || page.fieldsOutside > 0 {
+		bad("page-structure-differs", "%d %s fields inside the form, %d binding fields outside it", len(page.message), field, page.fieldsOutside)
 		return keys, detail, "DIFFERS"
 	}
-	var message string
-	for i, w := range seq {
-		t := toks[i]
-		if t.Kind != w.kind || t.Name != w.name {
-			bad("page-structure-differs", "token %d is %s:%s, expected %s:%s", i, t.Kind, t.Name, w.kind, w.name)
-			return keys, detail, "DIFFERS"
-		}
-		if w.kind == "script-text" && t.Text != w.text {
-			bad("script-text-differs", "script %q", t.Text)
-		}
-		if w.kind != "start" {
-			continue
-		}
-		if len(t.Attrs) != len(w.attrs) {
-			bad("unexpected-attributes", "<%s> has %d attributes, %d expected: %v", t.Name, len(t.Attrs), len(w.attrs), t.Attrs)
-			continue
-		}
-		for _, a := range t.Attrs {
-			wv, ok := w.attrs[a.Name]
-			switch {
-			case !ok:
-				bad("unexpected-attributes", "<%s %s>", t.Name, a.Name)
-			case wv == "\x00message":
-				message = a.Value
-			case a.Name == "value" && w.attrs["name"] == "RelayState" && a.Value != wv:
-				// html/template replaces NUL by U+FFFD; the statement's relay states are text
-				if strings.ReplaceAll(wv, "\x00", "�") == a.Value {
-					continue
-				}
-				bad("RelayState-not-recovered", "RelayState decodes to %q", a.Value)
-			case a.Value != wv:
-				bad("attribute-value-differs/"+t.Name+"@"+a.Name, "<%s %s=%q> expected %q", t.Name, a.Name, a.Value, wv)
-			}
+	message = page.message[0]
+	switch {
+	case relay == "" && len(page.relay) > 0:
+		bad("RelayState-field-although-none-given", "RelayState fields %q", page.relay)
+	case relay != "" && len(page.relay) != 1:
+		bad("page-structure-differs", "%d RelayState fields for a non-empty relay state", len(page.relay))
+	case relay != "" && page.relay[0] != relay && strings.ReplaceAll(relay, "\x00", "\ufffd") != page.relay[0]:
+		// html/template replaces NUL by U+FFFD; the statement's relay states are text
+		bad("RelayState-not-recovered", "RelayState decodes to %q", page.relay[0])
+	}
+	if !page.submits {
+		bad("page-does-not-submit-itself", "no script calls submit()")
+	}
+	// and nothing else may depend on the relay state or the document: same skeleton as the page
+	// the same builder makes for a plain relay state
+	if len(keys) == 0 {
+		base, berr := c16BaselineSkeleton(c)
+		if berr != nil {
+			bad("page-structure-differs", "baseline page: %v", berr)
+		} else if sk := c16Skeleton(toks, field); sk != base {
+			bad("page-structure-differs", "page skeleton %s differs from the skeleton for a plain relay state %s", sk, base)
 		}
 	}
 	msg, derr := base64.StdEncoding.DecodeString(message)
@@ -264,6 +240,124 @@ func c16JudgePage(sp *saml2.SAMLServiceProvider, c c16Case, out, docBytes []byte
 	return nil, detail, "intact/relay-state"
 }
 
+// c16Page is what a browser would make of the token stream, as far as the binding cares.
+type c16Page struct {
+	forms         int
+	nested        bool
+	action        string
+	method        string
+	message       []string // values of the inputs named SAMLRequest/SAMLResponse inside the form
+	relay         []string // values of the inputs named RelayState inside the form
+	fieldsOutside int      // inputs with one of the binding's names outside the form
+	submits       bool
+}
+
+func c16ReadPage(toks []recipient.HTMLTok, field string) c16Page {
+	var pg c16Page
+	depth := 0
+	for _, t := range toks {
+		switch {
+		case t.Kind == "start" && t.Name == "form":
+			pg.forms++
+			if depth > 0 {
+				pg.nested = true
+			}
+			depth++
+			for _, a := range t.Attrs {
+				switch a.Name {
+				case "action":
+					pg.action = a.Value
+				case "method":
+					pg.method = a.Value
+				}
+			}
+		case t.Kind == "end" && t.Name == "form":
+			depth--
+		case t.Kind == "start" && (t.Name == "input" || t.Name == "textarea" || t.Name == "button" || t.Name == "select"):
+			name, value := "", ""
+			for _, a := range t.Attrs {
+				switch a.Name {
+				case "name":
+					name = a.Value
+				case "value":
+					value = a.Value
+				}
+			}
+			binding := name == "SAMLRequest" || name == "SAMLResponse" || name == "RelayState" || name == "SigAlg" || name == "Signature"
+			switch {
+			case !binding:
+			case depth != 1 || (name != field && name != "RelayState") || t.Name != "input":
+				pg.fieldsOutside++
+			case name == field:
+				pg.message = append(pg.message, value)
+			default:
+				pg.relay = append(pg.relay, value)
+			}
+		case t.Kind == "script-text":
+			if strings.Contains(t.Text, ".submit()") {
+				pg.submits = true
+			}
+		}
+	}
+	return pg
+}
+
+// c16Skeleton is the token stream with the three values that legitimately vary removed (the
+// form's action, the message field's value, the RelayState field's value); everything else,
+// including attribute values, text and scripts, is kept verbatim.
+func c16Skeleton(toks []recipient.HTMLTok, field string) string {
+	var b strings.Builder
+	for _, t := range toks {
+		b.WriteString("[" + t.Kind + ":" + t.Name)
+		name := ""
+		for _, a := range t.Attrs {
+			if a.Name == "name" {
+				name = a.Value
+			}
+		}
+		for _, a := range t.Attrs {
+			v := a.Value
+			if (t.Name == "form" && a.Name == "action") || (a.Name == "value" && (name == field || name == "RelayState")) {
+				v = "*"
+			}
+			fmt.Fprintf(&b, " %s=%q", a.Name, v)
+		}
+		if t.Text != "" {
+			fmt.Fprintf(&b, " %q", t.Text)
+		}
+		b.WriteString("]")
+	}
+	return b.String()
+}
+
+var c16Baselines sync.Map
+
+func c16BaselineSkeleton(c c16Case) (string, error) {
+	bc := c
+	if c16Relay[c.Relay] != "" {
+		bc.Relay = 1 // "plain"
+	}
+	key := fmt.Sprintf("%+v", bc)
+	if v, ok := c16Baselines.Load(key); ok {
+		return v.(string), nil
+	}
+	out, _, err, p := c16Build(world.SP(), bc)
+	if err != nil || p != "" {
+		return "", fmt.Errorf("err=%v panic=%q", err, p)
+	}
+	toks, terr := recipient.TokenizeHTML(string(out))
+	if terr != nil {
+		return "", terr
+	}
+	field := "SAMLRequest"
+	if c16Builders[c.Builder] == "BuildLogoutResponseBodyPostFromDocument" {
+		field = "SAMLResponse"
+	}
+	sk := c16Skeleton(toks, field)
+	c16Baselines.Store(key, sk)
+	return sk, nil
+}
+
 func c16Replay(raw json.RawMessage) ([]string, string) {
 	var c c16Case
 	if err := json.Unmarshal(raw, &c); err != nil {
@@ -274,7 +368,7 @@ func c16Replay(raw json.RawMessage) ([]string, string) {
 }
 
 func c16Run(r *mc.Run) {
-	r.Rule = "full product relay state(27: quotes, angle brackets, script and attribute-injection payloads, ampersands, character references, newline, U+2028, backtick, backslash, template syntax, plus, comment opener, NUL) x builder(4) x document(3: signed, unsigned, non-ASCII) x endpoint(2: plain, with & query) x SignAuthnRequests(2, BuildAuthBodyPost); oracle = a strict HTML tokenizer: exact token sequence (one form, the message field, RelayState iff non-empty, the submit button, the fixed scripts), exact attribute sets, message field = base64 of exactly the document, RelayState decoding to exactly the value. non-trivial = a page was produced and tokenized; distinct = distinct case"
+	r.Rule = "full product relay state(27: quotes, angle brackets, script and attribute-injection payloads, ampersands, character references, newline, U+2028, backtick, backslash, template syntax, plus, comment opener, NUL) x builder(4) x document(3: signed, unsigned, non-ASCII) x endpoint(2: plain, with & query) x SignAuthnRequests(2, BuildAuthBodyPost); oracle = a strict HTML tokenizer (anything needing browser error recovery is rejected) and a reading of the page as a browser would: exactly one form, action = the endpoint, method POST, exactly one message field inside it = base64 of exactly the document, a RelayState field iff non-empty decoding to exactly the value, no binding field anywhere else, a script that submits; and the token skeleton (every tag, attribute, attribute value, text and script except those three values) equal to the skeleton of the page the same builder makes for a plain relay state, so that nothing else can depend on the relay state or the document. non-trivial = a page was produced and tokenized; distinct = distinct case"
 	var cases []c16Case
 	mc.Enumerate(-1, r.Expired, func(ch *mc.Chooser) {
 		c := c16Case{}
